@@ -25,7 +25,11 @@ def gen(rng, index, tier):
     sch = lib.gen_scheme(rng, max_pairs=len(raw) * n * (n - 1) // 2 + 1)
     cand, mode = lib.gen_candidate(rng, elems)
     meta["cand_mode"] = mode
-    return {"dataset": raw, "scheme": sch, "candidate": cand, "meta": meta}
+    case = {"dataset": raw, "scheme": sch, "candidate": cand, "meta": meta}
+    if rng.random() < 0.12:
+        import common
+        case["past"] = common.gen_past(rng, raw)
+    return case
 
 
 def fixed_cases(tier):
@@ -67,6 +71,17 @@ def impl(case):
         cand = lib.observe_ranking(cand_r, coder)
         res = {"obs": obs, "cand": cand}
         kcf = KemenyComputingFactory(sch)
+        if case.get("past"):
+            # the same factory scores the same candidate object, the dataset object is then modified in place
+            import common
+
+            def warm():
+                try:
+                    kcf.get_kemeny_score(cand_r, ds)
+                except InvalidRankingsForComputingDistance:
+                    pass
+            common.apply_past(ds, sch, case["past"], extra_query=warm)
+            res["obs"] = lib.observe_dataset(ds, coder)
         try:
             res["score"] = lib.to_int(kcf.get_kemeny_score(cand_r, ds), s)
         except InvalidRankingsForComputingDistance:
@@ -134,6 +149,8 @@ def judge(case, out, answers):
         tags.append("has-empty-ranking")
     if n == 1:
         tags.append("one-element")
+    if case.get("past"):
+        tags.append("dataset-with-a-past")
     return {"agree": not diff, "holds": holds, "diff": "; ".join(diff), "nontrivial": nontrivial, "tags": tags}
 
 
